@@ -124,7 +124,7 @@ FDate(r) ==
   LET ok == r.broken = "" /\ DateValid(r.y, r.mo, r.d)
       mk(sig) == {<<"C19", r.id, 0, 0, sig>>}
   IN (IF r.res.t = "p" THEN mk("panic") ELSE {})
-     \cup (IF r.res.t \notin {"p", "ce"} /\ ok /\ ~(IsW(r.res) /\ r.res.v = UnixSecs(r.y, r.mo, r.d, r.hh, r.mi, r.ss)) THEN mk("unix-seconds") ELSE {})
+     \cup (IF r.res.t \notin {"p", "ce"} /\ ok /\ ~(IsW(r.res) /\ r.res.v = UnixSecsAt(r.y, r.mo, r.d, r.hh, r.mi, r.ss, r.off)) THEN mk("unix-seconds") ELSE {})
      \cup (IF r.res.t \notin {"p", "ce"} /\ ~ok /\ ~IsE(r.res) THEN mk("unparsable-accepted") ELSE {})
 
 Findings(r) ==
